@@ -1,11 +1,12 @@
 #!/bin/bash
 # tools/mutant_recheck.sh <seeded-id> : re-applies seeded/<id>/patch.diff to a scratch worktree of /repo HEAD and re-runs the
-# quick checks listed in seeded/<id>/meta.json (caught_by); prints "<id> <check> exit=<rc>" per check. No unit tests, no demo.
+# quick check given as second argument (default: the first one listed in seeded/<id>/meta.json, caught_by); prints "<id> <check> exit=<rc>" per check. No unit tests, no demo.
 ID="$1"; WT="/tmp/re-$ID"
 git -C /repo worktree remove --force "$WT" >/dev/null 2>&1
 git -C /repo worktree add -q --detach "$WT" HEAD || exit 9
 if ! git -C "$WT" apply "/verif/seeded/$ID/patch.diff" 2>/dev/null; then echo "$ID APPLY-FAILED"; git -C /repo worktree remove --force "$WT"; exit 8; fi
-for P in $(python3 -c "import json;print(' '.join(json.load(open('/verif/seeded/$ID/meta.json'))['caught_by'][:1]))"); do
+CHECKS="${2:-$(python3 -c "import json;print(' '.join(json.load(open('/verif/seeded/$ID/meta.json'))['caught_by'][:1]))")}"
+for P in $CHECKS; do
   ( cd /verif && VERIF_REPO="$WT" VERIF_OUT_TAG="re-$ID" VERIF_JOBS=4 timeout 3000 ./check "$P" quick > "/tmp/re-$ID-$P.log" 2>&1; echo "$ID $P exit=$? $(grep -m1 -o 'clause=[a-zA-Z_:0-9]*' /tmp/re-$ID-$P.log)" )
   rm -f "/tmp/re-$ID-$P.log"
 done
